@@ -66,6 +66,21 @@ def where(a, b):
     return 'unknown'
 
 
+def _rewrite_job(job):
+    seed, fi, j, data = job
+    r = gen.seeded(seed, 'C08r', fi, j)
+    kinds = None if j >= len(rewrite.KINDS) else [rewrite.KINDS[j]]      # one rewrite kind at a time, then compositions
+    try:
+        new, counts = rewrite.rewrite(r, data, kinds, p=r.choice([0.15, 0.5, 0.9]), value_gen=lambda rr: c07.rand_item(rr, 0, rr.choice([1, 3, 6])))
+        # the rewriter checks itself: the independent interpretation must be unchanged
+        a, b = cdns_schema.parse(data), cdns_schema.parse(new)
+        if a.preamble != b.preamble or a.blocks != b.blocks:
+            return fi, j, kinds, None, None
+    except (cbor.CborError, cdns_schema.SchemaError):
+        return fi, j, kinds, None, None
+    return fi, j, kinds, new, counts
+
+
 def run(tier, seed):
     base, vs = corpus(tier, seed)
     per = 8 if tier == 'quick' else 20
@@ -73,19 +88,13 @@ def run(tier, seed):
     meta = []
     discarded = 0
     totals = {k: 0 for k in rewrite.KINDS}
+    jobs = [(seed, fi, j, data) for fi, data in enumerate(base) for j in range(per)]
     for fi, data in enumerate(base):
         files.append(('o%d' % fi, data))
-        for j in range(per):
-            r = gen.seeded(seed, 'C08r', fi, j)
-            kinds = None if j >= len(rewrite.KINDS) else [rewrite.KINDS[j]]      # one rewrite kind at a time, then compositions
-            try:
-                new, counts = rewrite.rewrite(r, data, kinds, p=r.choice([0.15, 0.5, 0.9]), value_gen=lambda rr: c07.rand_item(rr, 0, rr.choice([1, 3, 6])))
-                # the rewriter checks itself: the independent interpretation must be unchanged
-                a, b = cdns_schema.parse(data), cdns_schema.parse(new)
-                if a.preamble != b.preamble or a.blocks != b.blocks:
-                    discarded += 1
-                    continue
-            except (cbor.CborError, cdns_schema.SchemaError):
+    import multiprocessing
+    with multiprocessing.Pool(runner.NCPU) as pool:
+        for fi, j, kinds, new, counts in pool.imap(_rewrite_job, jobs, chunksize=4):
+            if new is None:
                 discarded += 1
                 continue
             if sum(counts.values()) == 0:
